@@ -211,6 +211,44 @@ class Interp(object):
             return res
         if isinstance(s, ast.Assert):
             return [Out("fall", st)]
+        if isinstance(s, ast.Try) and not s.finalbody:
+            # EAFP on the store's dicts: the only exception the interpreter models is the KeyError of a subscript / del on a missing key.
+            # A handler decides such a path when it names KeyError (or a base class of it); any other raise that meets a handler which
+            # might catch it is outside the subset.
+            def names(h):
+                if h.type is None:
+                    return None
+                ts = h.type.elts if isinstance(h.type, ast.Tuple) else [h.type]
+                out = []
+                for t in ts:
+                    out.append(t.attr if isinstance(t, ast.Attribute) else (t.id if isinstance(t, ast.Name) else "?"))
+                return out
+            res = []
+            for o in self.block(s.body, st, f, on_yield):
+                if o.kind == "raise":
+                    kind = o.val[1] if isinstance(o.val, tuple) and len(o.val) > 1 else "?"
+                    hit = None
+                    for h in s.handlers:
+                        ns = names(h)
+                        if kind == "KeyError":
+                            if ns is None or any(n in ("KeyError", "LookupError", "Exception", "BaseException") for n in ns):
+                                hit = h
+                                break
+                            if "?" in ns:
+                                raise AbsError("handler class `%s`" % ast.unparse(h.type))
+                        else:
+                            raise AbsError("a handler meets a raise whose class is not modelled (%s)" % kind)
+                    if hit is None:
+                        res.append(o)
+                        continue
+                    if hit.name is not None and any(isinstance(n, ast.Name) and n.id == hit.name for b in hit.body for n in ast.walk(b)):
+                        raise AbsError("handler uses the exception object")
+                    res.extend(self.block(hit.body, o.st, f, on_yield))
+                elif o.kind == "fall" and s.orelse:
+                    res.extend(self.block(s.orelse, o.st, f, on_yield))
+                else:
+                    res.append(o)
+            return res
         raise AbsError("statement `%s`" % type(s).__name__)
 
     # ---------------------------------------------------------------------------------------------------------------------
@@ -569,6 +607,9 @@ class Interp(object):
             raise AbsError("del of `%s`" % ast.unparse(t))
         res = []
         for st2, base in self.ev(t.value, st, f):
+            if base[0] == "RAISE":
+                res.append(Out("raise", st2, base))      # `del d[a][b]` with `a` missing: the look-up of d[a] raises
+                continue
             for st3, k in self.ev(t.slice, st2, f):
                 if base[0] == "D":
                     for st4, pres in self._present_inner(st3, k):
